@@ -73,8 +73,15 @@ func (tr *trans) specFuncRef(sf *SpecFunc) *fnRef {
 	return fr
 }
 
-func (tr *trans) pureParamRef(p *ssa.Parameter) *fnRef {
-	sig := p.Type().Underlying().(*types.Signature)
+func (tr *trans) pureParamRef(p interface {
+	Name() string
+	Type() types.Type
+}) *fnRef {
+	ft := p.Type()
+	if pt, ok := ft.Underlying().(*types.Pointer); ok {
+		ft = pt.Elem() // captured variable: pointer to the function-typed cell
+	}
+	sig := ft.Underlying().(*types.Signature)
 	fr := &fnRef{sym: q("pf." + p.Name())}
 	var ps []Sort
 	for i := 0; i < sig.Params().Len(); i++ {
@@ -429,6 +436,8 @@ func (tr *trans) call(v ssa.Value, c *ssa.CallCommon, st State) {
 	for _, a := range c.Args {
 		args = append(args, tr.val(a))
 	}
+	tr.curCallArgs = c.Args
+	defer func() { tr.curCallArgs = nil }()
 	sig := c.Signature()
 	if c.IsInvoke() {
 		recv := tr.val(c.Value)
@@ -516,28 +525,37 @@ func (tr *trans) call(v ssa.Value, c *ssa.CallCommon, st State) {
 		return
 	}
 	// call through a function value
+	var pureName string
 	if p, ok := c.Value.(*ssa.Parameter); ok {
-		if fr, ok := tr.pure[p.Name()]; ok {
+		pureName = p.Name()
+	} else if u, ok := c.Value.(*ssa.UnOp); ok {
+		if fv, ok := u.X.(*ssa.FreeVar); ok {
+			pureName = fv.Name()
+		}
+	}
+	if pureName != "" {
+		p := struct{ name string }{pureName}
+		if fr, ok := tr.pure[p.name]; ok {
 			var rs []Term
 			for i := range fr.results {
 				sym := fr.sym
 				if i > 0 {
-					sym = q(fmt.Sprintf("pf.%s.%d", p.Name(), i))
+					sym = q(fmt.Sprintf("pf.%s.%d", p.name, i))
 				}
 				rs = append(rs, app(sym, args...))
 			}
 			// ghost record of the call
 			for i, a := range args {
-				sn := fmt.Sprintf("call.%s.arg%d", p.Name(), i)
+				sn := fmt.Sprintf("call.%s.arg%d", p.name, i)
 				tr.stateSort[sn] = tr.vc.sortOf(fr.params[i])
 				tr.setState(st, sn, a)
 			}
 			for i, r := range rs {
-				sn := fmt.Sprintf("call.%s.res%d", p.Name(), i)
+				sn := fmt.Sprintf("call.%s.res%d", p.name, i)
 				tr.stateSort[sn] = tr.vc.sortOf(fr.results[i])
 				tr.setState(st, sn, r)
 			}
-			nn := "call." + p.Name() + ".n"
+			nn := "call." + p.name + ".n"
 			tr.stateSort[nn] = "Int"
 			tr.setState(st, nn, app("+", tr.getState(st, nn), "1"))
 			tr.setResults(v, rs)
@@ -603,6 +621,23 @@ func (tr *trans) applyContract(fc *FuncContract, sig *types.Signature, key strin
 		}
 		env.vars[n] = env.goSV(args[i], p.Type())
 		env.vars[n+"0"] = env.vars[n]
+		// a pure function parameter of the callee that receives a pure function parameter of the caller
+		if fc.Pure[n] && tr.curCallArgs != nil {
+			off := len(tr.curCallArgs) - len(args)
+			if off >= 0 && off+i < len(tr.curCallArgs) {
+				an := ""
+				if cp, ok := tr.curCallArgs[off+i].(*ssa.Parameter); ok {
+					an = cp.Name()
+				} else if u, ok := tr.curCallArgs[off+i].(*ssa.UnOp); ok {
+					if fv, ok := u.X.(*ssa.FreeVar); ok {
+						an = fv.Name()
+					}
+				}
+				if fr, ok := tr.pure[an]; ok && an != "" {
+					env.vars[n] = SV{kind: "fn", fn: fr, sort: "fn"}
+				}
+			}
+		}
 	}
 	short := key[strings.LastIndex(key, "/")+1:]
 	np := 0
